@@ -103,6 +103,15 @@ N={
  'C19-f':("chain/manager.go PruneBlocks loses the min(height, tip+1) clamp","a prune height greater than tip+1"),
  'C20-e':("wallet/seed.go decodeBIP39Phrase rejects phrases shorter than 59 characters","a valid phrase made of 3- and 4-letter words (47..58 characters)"),
  'C20-f':("wallet/seed.go KeyFromSeed streams into a shared package-level hasher without a lock","two goroutines deriving keys at the same time"),
+ 'C01-e':("chain/db.go AncestorTimestamp returns the zero time one block too early (Height+1 >= Oak.Height)","a network whose Oak hardfork height is a non-zero multiple of 500 and a chain crossing it"),
+ 'C08-e':("rhp/v4/server.go handleRPCFreeSectors swaps in place on the lent roots slice and copies only the truncated result","a valid free with an index that is not the last root, aborted after the host's first response"),
+ 'C08-f':("rhp/v4/server.go handleRPCSectorRoots writes the response with the host signature before ReviseV2Contract","Contractor.ReviseV2Contract failing for that revision (store fault)"),
+ 'C10-e':("rhp/v4/rpc.go RPCAppendSectors skips the append proof verification when no sector was accepted","a host that accepts nothing, returns a forged NewMerkleRoot and countersigns"),
+ 'C10-f':("rhp/v4/rpc.go RPCRenewContract merges the two host-signature checks with && instead of ||","a host corrupting exactly one of the two signatures of its third response"),
+ 'C16-e':("rhp/v4/rpc.go RPCRenewContract returns its own request basis instead of the host's basis with the renewal set","a renewal with the renter's tip behind the host's"),
+ 'C16-f':("rhp/v4/rpc.go RPCFormContract inspects TransactionSet[0] instead of the last transaction","a formation whose renter inputs are unconfirmed (set = [parent, formation])"),
+ 'C18-f':("syncer/syncer.go subnetKey no longer masks the remote IP to the configured prefix","peers with different addresses inside one configured subnet (IPv4 prefix shorter than /32)"),
+ 'C18-g':("syncer/syncer.go acceptLoop's per-connection goroutine no longer registers with the thread group","Close while an inbound connection is mid-handshake"),
  'C19-a':("chain/manager.go PruneBlocks walks upwards from genesis and breaks on the first missing body","prune at h1>=1, then prune again at h2>h1"),
  'C19-b':("chain/manager.go MinReorgIndex checks Header instead of Block","PruneBlocks mid-chain, then a heavier fork with fork point at the reported index"),
  'C20-a':("wallet/seed.go decodeBIP39Phrase never checks the 12th word against the word list (reads as index 0)","11 valid words followed by an unknown token where the same 11 words plus 'abandon' have a valid checksum (1 in 16)"),
@@ -137,6 +146,8 @@ H={'C02-a':"missed by the first version of C02 (all workloads used distinct wind
  'C11-e':"missed at first; C11 now records what the victim relays to an honest observer and the bans honest nodes issue",
  'C12-c':"missed at first; C12 gained an honest lab peer that serves short header batches",
  'C04-e':"a crash-consistency change: decided by C03 (reopen at every commit), not visible to C04's in-process subscribers",
+ 'C01-e':"missed by construction at first (all generated networks had Oak at height 1); the Oak-boundary scenario (Oak at 500, chains and reorgs crossing it) was added",
+ 'C15-f':"decided by C08 (commit-on-stale-lock and the refused-contender pattern); C15's own workload did not contain a paused funding RPC at that time",
  'C18-b':"missed at first; stalled partial requests at every stage against Close added"}
 rows=[]
 for d in sorted(glob.glob('/verif/seeded/*')):
